@@ -58,8 +58,29 @@ def build_and_run(job):
     return {"status": "ok", "rc": rc, "out": out}
 
 
+def rename_enums(sch, ren):
+    """the same schema with its enums renamed (a name is not part of the layout: nothing else may change)"""
+    s = json.loads(json.dumps(sch))
+    for e in s["enums"]:
+        e["name"] = ren.get(e["name"], e["name"])
+
+    def walk(t):
+        if t["k"] == "enum":
+            t["name"] = ren.get(t["name"], t["name"])
+        if "t" in t:
+            walk(t["t"])
+    for st in s["structs"]:
+        for f in st["fields"]:
+            walk(f["type"])
+    return s
+
+
+# enum names that begin like the builtin type names (iN, uN, fNN)
+ENUM_NAMES = ["inverter", "Eb", "ustate", "fmode", "i", "Id8"]
+
+
 def rand_flat_schema(rng, nmsg):
-    enums = [randgen.rand_enum(rng, n) for n in randgen.NAMES_E[:3]]
+    enums = [randgen.rand_enum(rng, n) for n in rng.sample(ENUM_NAMES, 3)]
     structs, impls = [], []
     for mi in range(nmsg):
         left = 64
@@ -112,7 +133,10 @@ def run_c06(tier, seed):
         if o["kind"] == "schema":
             s = glue.strip_gen(o["schema"])
             s.pop("chunk", None)
-            schemas[o["chunk"]] = abs_for_text(s)
+            s = abs_for_text(s)
+            if o["chunk"] % 2 == 1:
+                s = rename_enums(s, {"Ea": "inverter", "Eb": "ustate", "Ec": "fmode", "Ed": "i", "Ez": "Id8"})
+            schemas[o["chunk"]] = s
         else:
             cases.setdefault(o["chunk"], []).append(o)
     chunks = sorted(schemas)
